@@ -53,9 +53,27 @@ func observe(s *sut, tracked []protoreflect.FieldDescriptor) string {
 			if v.List().Len() != 0 {
 				return fmt.Sprintf("Get(%s) on unpopulated list: len=%d", fdKey(fd), v.List().Len())
 			}
+			// whatever its validity, the value is documented as a read-only view: a write through it
+			// must panic or at least never reach the message
+			func() {
+				defer func() { recover() }()
+				l := v.List()
+				l.Append(l.NewElement())
+			}()
+			if s.real.Has(rfd) || s.real.Get(rfd).List().Len() != 0 {
+				return fmt.Sprintf("a write through Get(%s) of an unpopulated list changed the message", fdKey(fd))
+			}
 		case fd.IsMap():
 			if v.Map().Len() != 0 {
 				return fmt.Sprintf("Get(%s) on unpopulated map: len=%d", fdKey(fd), v.Map().Len())
+			}
+			func() {
+				defer func() { recover() }()
+				mp := v.Map()
+				mp.Set(fd.MapKey().Default().MapKey(), mp.NewValue())
+			}()
+			if s.real.Has(rfd) || s.real.Get(rfd).Map().Len() != 0 {
+				return fmt.Sprintf("a write through Get(%s) of an unpopulated map changed the message", fdKey(fd))
 			}
 		case fd.Message() != nil:
 			if v.Message().IsValid() {
